@@ -59,13 +59,16 @@ type Proof struct {
 }
 
 func (p *Proof) IsValid(public Public) bool {
-	if p == nil {
+	if p == nil || p.group == nil || p.Commitment == nil || public.Prover == nil || public.Aux == nil {
+		return false
+	}
+	if !arith.IsValidNatModN(public.Aux.N(), p.S, p.D) {
 		return false
 	}
 	if !public.Prover.ValidateCiphertexts(p.A) {
 		return false
 	}
-	if p.Y.IsIdentity() {
+	if curve.IsNilPoint(p.Y) || p.Y.IsIdentity() {
 		return false
 	}
 	if !arith.IsValidNatModN(public.Prover.N(), p.Z2) {
